@@ -197,3 +197,11 @@ def c12_bare_item_for_list_default() -> bool:
     the rebuilt schema holds the coerced list and prints `= [5]`.  tests/test_utilities/test_ast_node_from_value.py pins the bare form
     (test_ast_node_from_value_with_list_types: 'FOO' for [String] -> StringValue), so the literal cannot be changed without editing a test."""
     return ENABLED
+
+
+def c15_variable_definition_location(locs) -> bool:
+    """KF C15-variable-definition-location: the SDL parser and Directive accept the location VARIABLE_DEFINITION, but the __DirectiveLocation
+    introspection enum has no such value: introspecting a schema with `directive @v on VARIABLE_DEFINITION` raises RuntimeError (the location cannot
+    be serialised).  Adding the value changes the introspection schema, which tests/test_execution/test_introspection.py::test_introspection_query
+    and tests/test_schema/test_schema_printer.py::test_introspection_schema pin, so it cannot be repaired without editing a test."""
+    return ENABLED and "VARIABLE_DEFINITION" in locs
